@@ -24,5 +24,5 @@ OBLIGATIONS.append(ob('C11.lexer.asc', 'verif_frag::lexwords::c11_lexer_asc', 'a
 OBLIGATIONS.append(ob('C11.between.case', BETW + 'c11_between_case', 'the BETWEEN guard of parse_cond accepts between / BETWEEN / Between and rejects other operator words', units=['cmp', 'between'], complete=False, bound='5 concrete spellings'))
 CANARIES = [dict(harness=OPS + 'canary_ops_must_fail', units=['operators']), dict(harness=FIELD + 'canary_field_must_fail', units=['fieldclass']), dict(harness='verif_frag::lexwords::canary_lexwords_must_fail', units=['lexwords'])]
 ASSUMPTIONS = ['the alias tables are finite: "complete" means every documented spelling, in lower and upper case, is enumerated']
-NOT_COVERED = ['whitespace-split invariance, bracket styles, optional tokens, function aliases (symbolic lexing infeasible in CBMC)', 'root-option aliases: the real parse_root_options on one concrete word exhausts memory / 300 s in CBMC (measured) - only its panic freedom and termination are proved (Verus, under C10)']
+NOT_COVERED = ['whitespace-split invariance, bracket styles, optional tokens, function aliases (the real Lexer on the 3-word query `name from /x` does not finish in 300 s in CBMC: measured, removed)', 'root-option aliases: the real parse_root_options on one concrete word exhausts memory / 300 s in CBMC (measured) - only its panic freedom and termination are proved (Verus, under C10)']
 HARNESS_TIMEOUT = 300
